@@ -18,6 +18,10 @@ namespace vh
     namespace
     {
         thread_local std::vector<double>* half_sink = nullptr;
+        // unit change by an exact power of two (case field "ksc"): diffusivities times 2^-ksc, time step
+        // times 2^ksc - the same physical problem, every product K dt is bit-identical
+        int k_scale_exp = 0;
+        double kval(double k) { return std::ldexp(k, -k_scale_exp); }
 
         void adi_hook(int site, const void*, std::size_t, const void* aux)
         {
@@ -41,18 +45,18 @@ namespace vh
         std::vector<double> run_once(grid_t& g, const vj::value& c, const xt::xarray<double>& h, bool force_array,
                                      std::vector<double>* half)
         {
-            double dt = c["dt"][0].as_double() / c["dt"][1].as_double();
+            double dt = std::ldexp(c["dt"][0].as_double() / c["dt"][1].as_double(), k_scale_exp);
             std::unique_ptr<eroder_t> er;
             if (c.has("Ka") || force_array)
             {
                 auto k = grid_array<grid_t, double>(g, 0.0);
                 for (size_t i = 0; i < g.size(); ++i)
-                    k.flat(i) = c.has("Ka") ? c["Ka"][i].as_double() : c["Ks"].as_double();
+                    k.flat(i) = kval(c.has("Ka") ? c["Ka"][i].as_double() : c["Ks"].as_double());
                 xt::xtensor<double, 2> kt = k;
                 er = std::make_unique<eroder_t>(g, kt);
             }
             else
-                er = std::make_unique<eroder_t>(g, c["Ks"].as_double());
+                er = std::make_unique<eroder_t>(g, kval(c["Ks"].as_double()));
             half_sink = half;
             const auto& e = er->erode(h, dt);
             half_sink = nullptr;
@@ -66,6 +70,7 @@ namespace vh
     std::string run_adi_case(const vj::value& c)
     {
         fs::verif::hook().store(&adi_hook);
+        k_scale_exp = static_cast<int>(c.get_int("ksc", 0));
         auto g = grid_maker<grid_t>::make(c["grid"]);
         size_t n = g->size();
         int S = static_cast<int>(c.get_int("S", 16));
@@ -93,7 +98,7 @@ namespace vh
         // one eroder object whose diffusivity is changed through its setters between steps
         if (c.has("hist"))
         {
-            double dt = c["dt"][0].as_double() / c["dt"][1].as_double();
+            double dt = std::ldexp(c["dt"][0].as_double() / c["dt"][1].as_double(), k_scale_exp);
             std::unique_ptr<eroder_t> er;
             for (auto& ep : c["hist"].a)
             {
@@ -103,7 +108,7 @@ namespace vh
                 {
                     auto k = grid_array<grid_t, double>(*g, 0.0);
                     for (size_t i = 0; i < n; ++i)
-                        k.flat(i) = en["Ka"][i].as_double();
+                        k.flat(i) = kval(en["Ka"][i].as_double());
                     kt = k;
                 }
                 if (!er)
@@ -111,12 +116,12 @@ namespace vh
                     if (en.has("Ka"))
                         er = std::make_unique<eroder_t>(*g, kt);
                     else
-                        er = std::make_unique<eroder_t>(*g, en["Ks"].as_double());
+                        er = std::make_unique<eroder_t>(*g, kval(en["Ks"].as_double()));
                 }
                 else if (en.has("Ka"))
                     er->set_k_coef(kt);
                 else
-                    er->set_k_coef(en["Ks"].as_double());
+                    er->set_k_coef(kval(en["Ks"].as_double()));
                 std::vector<double> hf;
                 half_sink = &hf;
                 const auto& eh = er->erode(h, dt);
